@@ -90,8 +90,11 @@ def bpath(body, path, limit=14):
 def run_property(prop, tier="quick", replay=None):
     t0 = time.time()
     seed = int(os.environ.get("VERIF_SEED", "0") or 0)
-    ev_path = os.path.join(VERIF, "evidence", "%s.json" % prop)
-    vio_path = os.path.join(VERIF, "evidence", "%s.violation.json" % prop)
+    evdir = os.environ.get("RAFTLINT_EVIDENCE_DIR") or os.path.join(VERIF, "evidence")
+    if os.path.abspath(extract.REPO) != "/repo" and not os.environ.get("RAFTLINT_EVIDENCE_DIR"):
+        evdir = os.path.join(extract.CACHE, "scratch-evidence")  # never clobber real evidence from a scratch run
+    ev_path = os.path.join(evdir, "%s.json" % prop)
+    vio_path = os.path.join(evdir, "%s.violation.json" % prop)
     os.makedirs(os.path.dirname(ev_path), exist_ok=True)
     for p in (ev_path, vio_path):
         if os.path.exists(p):
